@@ -158,6 +158,34 @@ func BuildModularGenome(t *Tape) *genetics.Genome {
 		}
 		ioAll = append(ioAll, io)
 	}
+	// wire the modules into the rest of the network: genes from existing nodes into module inputs and from module
+	// outputs to output (or hidden) neurons, so that the modules take part in activation at some depth
+	genes := append([]*genetics.Gene(nil), g.Genes...)
+	var srcs, dsts []*network.NNode
+	for _, n := range g.Nodes {
+		if n.NeuronType != network.OutputNeuron {
+			srcs = append(srcs, n)
+		}
+		if n.NeuronType == network.OutputNeuron || n.NeuronType == network.HiddenNeuron {
+			dsts = append(dsts, n)
+		}
+	}
+	for _, io := range ioAll {
+		for _, in := range io[:len(io)-1] {
+			if len(srcs) > 0 && t.Chance("modWireIn", 2, 3) {
+				w := math.Round((t.Float("modW")*4-2)*1000) / 1000
+				gn := genetics.NewGene(w, srcs[t.Draw("modSrc", len(srcs))], in, false, innov, w)
+				genes = append(genes, gn)
+				innov++
+			}
+		}
+		if len(dsts) > 0 && t.Chance("modWireOut", 2, 3) {
+			w := math.Round((t.Float("modW")*4-2)*1000) / 1000
+			gn := genetics.NewGene(w, io[len(io)-1], dsts[t.Draw("modDst", len(dsts))], false, innov, w)
+			genes = append(genes, gn)
+			innov++
+		}
+	}
 	for m := 0; m < nMods; m++ {
 		io := ioAll[m]
 		cn := network.NewNNode(nextId, network.HiddenNeuron)
@@ -181,7 +209,7 @@ func BuildModularGenome(t *Tape) *genetics.Genome {
 		innov++
 		mods = append(mods, mg)
 	}
-	return genetics.NewModularGenome(g.Id, g.Traits, nodes, g.Genes, mods)
+	return genetics.NewModularGenome(g.Id, g.Traits, nodes, genes, mods)
 }
 
 func scenarioC06(c *RunCtx) {
